@@ -258,50 +258,40 @@ def run(repo, rep, tier):
             writers.append(('+=', call_name(n.value) if isinstance(n.value, ast.Call) else unparse(n.value), n))
         elif isinstance(n, ast.Assign) and unparse(n.targets[0]) == 'algorithm_recommendation_suppress_list':
             writers.append(('=', unparse(n.value), n))
-    # contents of the returned suppression list, by abstract interpretation of post_process_findings (sa/listinterp.py) over
-    # {kex present} x {GEX-SHA256 offered} x {modulus recorded: none / 2048 / 3072} x {banner: none / no software / OpenSSH / other}:
-    # exactly the not-enabled Terrapin-shaped names, plus the GEX name iff the documented OpenSSH 2048-bit fallback was observed
-    from sa.listinterp import Interp
-    from sa.abseval import Opaque, Unknown
-    GEXN = 'diffie-hellman-group-exchange-sha256'
-    ENABLED = ('_get_chacha_ciphers_enabled', '_get_cbc_ciphers_enabled', '_get_etm_macs_enabled')
-    NOT_ENABLED = ('_get_chacha_ciphers_not_enabled', '_get_cbc_ciphers_not_enabled', '_get_etm_macs_not_enabled')
+    # contents of the returned suppression list, by abstract interpretation of post_process_findings and its nested helpers (sa/listinterp.py,
+    # props/_terrapin.py) over {ChaCha, CBC, ETM offered} x {GEX-SHA256 offered, modulus recorded none / 2048 / 3072, banner none / no software / OpenSSH /
+    # other}: exactly the database names of Terrapin shape that the peer does NOT offer, plus the GEX name iff the documented OpenSSH 2048-bit fallback
+    # was observed -- in particular a name the peer advertises is never suppressed (its removal recommendation must stay visible)
+    from sa.abseval import Opaque
+    from props import _terrapin as T
+    GEXN = T.GEXN
+    shaped = {n for names in T.DB_NAMES.values() for n in names if any(f(n) for f in T.SHAPE.values())}
     bad = []
     nrows = 0
-    for kexp, gexin, size, ban in itertools.product([False, True], [False, True], [None, 2048, 3072], ['none', 'nosoft', 'OpenSSH_8.9p1', 'dropbear_2022.83']):
-        if not kexp and (gexin or size is not None):
+    gex_cases = [(False, None, 'OpenSSH_8.9p1'), (True, 2048, 'OpenSSH_8.9p1'), (True, 3072, 'OpenSSH_8.9p1'), (True, 2048, 'dropbear_2022.83'), (True, 2048, 'none'), (True, 2048, 'nosoft'), (True, None, 'OpenSSH_8.9p1')]
+    for kexp, chacha, cbc, etm in itertools.product([False, True], repeat=4):
+        if not kexp and (chacha or cbc or etm):
             continue
-        nrows += 1
-
-        def hook(call, env, interp):
-            nm = call_name(call)
-            if nm in ENABLED:
-                return (True, [])
-            if nm in NOT_ENABLED:
-                return (True, ['<%s>' % nm])
-            return None
-        env = {'algs.ssh2kex': Opaque() if kexp else None, 'algs.ssh2kex is not None': kexp, 'algs.ssh2kex is None': not kexp,
-               'algs.ssh2kex.kex_algorithms': ['curve25519-sha256'] + ([GEXN] if gexin else []),
-               'algs.ssh2kex.dh_modulus_sizes()': ({GEXN: size} if size is not None else {}),
-               'banner': None if ban == 'none' else Opaque(), 'banner is not None': ban != 'none', 'banner is None': ban == 'none',
-               'banner.software': None if ban in ('none', 'nosoft') else ban, 'client_audit': False, 'dh_rate_test_notes': ''}
-        try:
-            finals = Interp(call_hook=hook, effect_names=('_add_terrapin_warning',)).run(ppf.body, env)
-        except Unknown as ex:
-            raise AnalysisError('post_process_findings cannot be interpreted for the suppression rule: %s' % ex)
-        want_gex = kexp and gexin and size == 2048 and ban.startswith('OpenSSH')
-        for fe in finals:
-            rep.evals()
-            r = fe.get('<return>')
-            if fe.get('<outcome>') != 'return' or not isinstance(r, tuple) or not isinstance(r[0], list) or any(isinstance(x, Opaque) for x in r[0]):
-                raise AnalysisError('post_process_findings: suppression list not computable (forks: %s)' % fe.get('<forks>'))
-            got_set = set(r[0])
-            want_set = {'<%s>' % n for n in NOT_ENABLED} | ({GEXN} if want_gex else set())
-            if got_set != want_set:
-                bad.append(({'kex': kexp, 'gex offered': gexin, 'modulus': size, 'banner': ban}, sorted(got_set - want_set), sorted(want_set - got_set)))
-    rep.floor('suppress', 'suppression rows interpreted', nrows, 28)
-    rep.check('suppress', 'the suppression list holds exactly the not-enabled Terrapin-shaped names plus the GEX name iff the OpenSSH 2048-bit fallback was observed (%d rows)' % nrows, not bad, ppf,
-              'recommendation suppression list is wrong: with %s it %s' % ((bad[0][0], ('also suppresses %s' % bad[0][1]) if bad[0][1] else ('no longer suppresses %s' % bad[0][2])) if bad else ({}, '')),
+        for gexin, size, ban in (gex_cases if kexp else [(False, None, 'OpenSSH_8.9p1'), (False, None, 'none')]):
+            nrows += 1
+            val = {'kexp': kexp, 'client': False, 'c': False, 's': False, 'chacha': chacha, 'cbc': cbc, 'etm': etm}
+            extra = {'algs.ssh2kex.dh_modulus_sizes()': ({GEXN: size} if size is not None else {}),
+                     'banner': None if ban == 'none' else Opaque(), 'banner is not None': ban != 'none', 'banner is None': ban == 'none',
+                     'banner.software': None if ban in ('none', 'nosoft') else ban}
+            finals, it, table = T.interpret(repo, ppf, val, extra_env=extra, kex_extra=([GEXN] if gexin else []))
+            want_gex = kexp and gexin and size == 2048 and ban.startswith('OpenSSH')
+            want_set = T.expected_suppressed(val) | ({GEXN} if want_gex else set())
+            for fe in finals:
+                rep.evals()
+                r = fe.get('<return>')
+                if fe.get('<outcome>') != 'return' or not isinstance(r, tuple) or not isinstance(r[0], list) or any(isinstance(x, Opaque) for x in r[0]):
+                    raise AnalysisError('post_process_findings: suppression list not computable (forks: %s)' % fe.get('<forks>'))
+                got_set = set(r[0])
+                if got_set != want_set:
+                    bad.append(({'ChaCha offered': chacha, 'CBC offered': cbc, 'ETM offered': etm, 'gex offered': gexin, 'modulus': size, 'banner': ban}, sorted(got_set - want_set), sorted(want_set - got_set)))
+    rep.floor('suppress', 'suppression rows interpreted', nrows, 50)
+    rep.check('suppress', 'the suppression list holds exactly the Terrapin-shaped database names the peer does not offer, plus the GEX name iff the OpenSSH 2048-bit fallback was observed (%d rows)' % nrows, not bad, ppf,
+              'recommendation suppression list is wrong: with %s it %s' % ((bad[0][0], ('also suppresses %s (a name the peer advertises loses its removal recommendation)' % bad[0][1]) if bad[0][1] else ('no longer suppresses %s' % bad[0][2])) if bad else ({}, '')),
               stmt='suppression list contents', sample={'rule': 'suppress', 'rows': nrows})
     for k, v, n in writers:
         if k == 'append':
